@@ -565,7 +565,7 @@ func newHarness(r *rand.Rand, w *lib.Writer) *harness {
 	if err != nil {
 		panic(err)
 	}
-	h.strict = os.Getenv("VERIF_C19_STRICT") == "1"
+	h.strict = os.Getenv("VERIF_C19_STRICT") != "0" // both findings are fixed in /repo: any recurrence is a property failure
 	return h
 }
 
